@@ -171,7 +171,7 @@ def meets_spec(op, code, spec, roles=None):
         except ValueError:
             return False, "expected a count"
         return (k <= n <= k + slack), f"expected a count in [{k}, {k + slack}]"
-    if spec.startswith("~readn"):
+    if spec.startswith("~readn "):
         parts = spec.split(" ", 3)
         n = int(parts[1].split("=")[1])
         sel = parse_entries(parts[3]) if len(parts) > 3 else []
